@@ -11,6 +11,23 @@ K_NOTE_KERNEL = ("Trusted: Kani 0.68/CBMC 6.11/cadical; the symbolic kernel in e
 K_NOTE = "Trusted: Kani 0.68/CBMC 6.11/cadical; the short reference functions in the harness; bounds as stated; x86_64 only."
 
 CHECKS = {
+    "C09": dict(engine="K", technique=K_TECH, design_ref="§4 C09",
+                text=("Bounded model checking of each rusl wrapper with the value returned by its `syscall` instruction as a free 64-bit "
+                      "variable: Err iff the value is in [-4095,-1], errno exact and positive, success value carried unchanged, exactly one "
+                      "call (dup3: re-issue only after -EBUSY, asserted inside the kernel stand-in). One harness per wrapper; wrappers "
+                      "without a harness are listed in evidence."),
+                note=K_NOTE_KERNEL + " Full 64-bit return value; no loop bound involved except dup3's retry (<= 2 retries)."),
+    "C10": dict(engine="K", technique=K_TECH, design_ref="§4 C10",
+                text=("Bounded model checking of every safe UnixStr/UnixString constructor, conversion and path operation over all byte "
+                      "strings up to the stated length (all 256 byte values): result ends with its only NUL, unrepresentable input gives "
+                      "Err, and no panic/overflow/out-of-bounds is reachable."),
+                note=K_NOTE + " alloc::fmt::format is real in from_format and replaced by 'any text' in path_join_fmt; `unix_lit!` "
+                     "constants cannot be encoded by Kani 0.68 (constant fat pointer) and are validated by rustc at compile time instead."),
+    "C19": dict(engine="K", technique=K_TECH, design_ref="§4 C19",
+                text=("Bounded model checking at full 64-bit width: t+d, t-d, a-b for SystemTime/Instant are exact and normalised or None "
+                      "(oracle in 128-bit carry form, no multiplication), round-trip laws, ordering vs subtraction, panic-freedom for "
+                      "negative seconds; clock readings and nanosleep interruptions are symbolic (time is a variable of the formula)."),
+                note=K_NOTE_KERNEL + " No size bound on values; sleep: <= 3 EINTR interruptions."),
     "C11": dict(engine="K", technique=K_TECH, design_ref="§4 C11",
                 text=("Bounded model checking: every pair of operand byte strings up to the stated length (all 255 non-NUL byte "
                       "values) is decided by the SAT solver against byte-string reference definitions; Kani's pointer checks decide "
